@@ -171,14 +171,17 @@ class App:
     def request(self, rq):
         """rq: {'m', 'segs', 'q': [(k, v)], 'b': [(k, v)], 'ts', 'nc'}"""
         segs = list(rq['segs'])
-        enc = [quote(s, safe='') for s in segs]
+        # as a client spells them: sub-delimiters like "+" literally (tests/web/test_expose.py), anything else escaped;
+        # whether an escaped segment is matched / handed on decoded is left open by the statement, so no handler name
+        # in any world needs an escape
+        enc = [quote(s, safe='+') for s in segs]
         nc = rq.get('nc', '')
         if nc == 'dslash':
             enc.insert(len(enc) - 1, '')
         elif nc == 'dot':
             enc.insert(len(enc) - 1, '.')
         elif nc == 'pct':
-            enc[-1] = '%%%02X' % ord(segs[-1][0]) + quote(segs[-1][1:], safe='')
+            enc[-1] = '%%%02X' % ord(segs[-1][0]) + quote(segs[-1][1:], safe='+')
         target = '/' + '/'.join(enc)
         if rq.get('ts') and segs:
             target += '/'
@@ -192,7 +195,9 @@ class App:
         elif rq['m'] in ('POST', 'PUT'):
             hdrs.append('Content-Length: 0')
         keys = sorted({k for k, _ in rq['q']} | {k for k, _ in rq['b']})
-        self.reqs.append({'m': rq['m'], 'segs': segs, 'canon': nc == '', 'keys': keys,
+        # canonical spelling: no empty / dot segment and no escape at all (the HTTP component redirects some
+        # targets that carry escapes, e.g. /c%20d/+q; that guard is not the subject here)
+        self.reqs.append({'m': rq['m'], 'segs': segs, 'canon': nc == '' and enc == segs, 'keys': keys,
                           'q': [{'k': k, 'v': v} for k, v in rq['q']], 'b': [{'k': k, 'v': v} for k, v in rq['b']]})
         self.lines.append(line('req', r=len(self.reqs)))
         conn = self.h.connect()
@@ -569,12 +574,14 @@ def run(tier, replay=None):
     quick = tier == 'quick'
     sfx = '' if quick else '_thorough'
     jq = ('-Xmx3g', '-XX:ParallelGCThreads=2')
+    # short-lived JVMs (deviation runs, dumps, trace validation): C1 only, they end before C2 pays off
+    js = jq + (('-XX:TieredStopAtLevel=1',) if quick else ())
     to = 600 if quick else 2400
 
     # 1. exhaustive model checks + deviation generators, in parallel JVMs
     mc_cfgs = ['MC_Routing%s.cfg' % sfx, 'MC_Routing_dyn%s.cfg' % sfx]
     pool = ThreadPoolExecutor(max_workers=8)
-    dev_futs = {d: pool.submit(tlc.run_tlc, SPEC, 'Routing', 'DEV_Routing_%s.cfg' % d, workers=2, jvm_opts=jq, timeout=to)
+    dev_futs = {d: pool.submit(tlc.run_tlc, SPEC, 'Routing', 'DEV_Routing_%s.cfg' % d, workers=1, jvm_opts=js, timeout=to)
                 for d in DEVS}
     mc_futs = [pool.submit(tlc.model_check, SPEC, 'Routing', c, workers=6, jvm_opts=jq, timeout=to) for c in mc_cfgs]
     try:
@@ -594,7 +601,7 @@ def run(tier, replay=None):
             world, script = realise(table, last['hist'])
             tr, notes = run_script(world, script)
             cex.append((d, world, script, tr, model_lines(last['out'])))
-        cv, _ = tlc.validate_traces(SPEC, 'RoutingTrace', 'RoutingTrace.cfg', [c[3] for c in cex], shards=1, jvm_opts=jq)
+        cv, _ = tlc.validate_traces(SPEC, 'RoutingTrace', 'RoutingTrace.cfg', [c[3] for c in cex], shards=1, jvm_opts=js)
         present = sorted(d for (d, _, _, _, _), (cl, _) in zip(cex, cv) if cl and cl == dev_clause[d])
         tick('deviations present in the tree under test: %s' % present)
 
@@ -605,7 +612,7 @@ def run(tier, replay=None):
             def do_hist(c):
                 dst = os.path.join(wd, 'HIST_%s.cfg' % c)
                 _with_devs(os.path.join(VERIF, SPEC, 'HIST_Routing_%s%s.cfg' % (c, sfx)), dst, present)
-                res, states = tlc.dump_states(SPEC, 'Routing', dst, workers=4, jvm_opts=jq, timeout=to)
+                res, states = tlc.dump_states(SPEC, 'Routing', dst, workers=2 if quick else 4, jvm_opts=js, timeout=to)
                 return c, (res, _maximal(states))
             hists = dict(pool.map(do_hist, hist_cfgs))
         finally:
@@ -660,9 +667,9 @@ def run(tier, replay=None):
                 [c['hs'] and [h['name'] for h in c['hs']] for c in items[idx][1]['ctrls']], items[idx][0]['script']))
 
     # 4. TLC judges every recorded trace; a rejected trace is judged again without the request that failed
-    shards = 8 if quick else 16
+    shards = 4 if quick else 12
     verdicts, stats = tlc.validate_traces(SPEC, 'RoutingTrace', 'RoutingTrace.cfg', [it[2] for it in items],
-                                          shards=shards, jvm_opts=jq)
+                                          shards=shards, jvm_opts=js)
     tick('traces judged')
     accepted = []
     nreq = 0
@@ -684,7 +691,7 @@ def run(tier, replay=None):
         else:
             accepted.append(tr)
     rounds = 0
-    while again and rounds < (3 if quick else 8):
+    while again and rounds < (2 if quick else 8):
         rounds += 1
         batch = []
         for meta, world, tr, ln in again:
@@ -694,7 +701,7 @@ def run(tier, replay=None):
         if not batch:
             break
         v2, st2 = tlc.validate_traces(SPEC, 'RoutingTrace', 'RoutingTrace.cfg', [b[2] for b in batch],
-                                      shards=min(shards, 1 + len(batch) // 200), jvm_opts=jq)
+                                      shards=min(shards, 1 + len(batch) // 400), jvm_opts=js)
         stats['states'] += st2['states']
         again = []
         for (meta, world, tr), (clause, ln) in zip(batch, v2):
@@ -716,7 +723,7 @@ def run(tier, replay=None):
         if m:
             muts.append(m)
     if muts:
-        mv, _ = tlc.validate_traces(SPEC, 'RoutingTrace', 'RoutingTrace.cfg', [m[0] for m in muts], shards=4, jvm_opts=jq)
+        mv, _ = tlc.validate_traces(SPEC, 'RoutingTrace', 'RoutingTrace.cfg', [m[0] for m in muts], shards=2 if quick else 4, jvm_opts=js)
         missed = [muts[i][1] for i, (c, _) in enumerate(mv) if not c]
         if missed:
             raise tlc.MachineryError('trace spec accepted %d corrupted traces, e.g. %s' % (len(missed), missed[0]))
